@@ -253,5 +253,6 @@ pub fn check() -> Check {
             Workload { name: "through_foca", f: through_foca, quick: 600, thorough: 30_000, flav: Flav::Checked },
         ],
         exhaustive: false,
+        aggregate: None,
     }
 }
